@@ -111,9 +111,6 @@ func plonkCase(name string, cm types.CommonCircuitData, r *Run) fieldCase {
 			for _, c := range conds {
 				refs = append(refs, c[0][0], c[1][0], c[0][1], c[1][1])
 			}
-			if len(outs) != len(refs) {
-				r.Infra("%s: PlonkChip.Verify asserts %d coordinate equalities, plonky2 requires %d", name, len(outs)/2, len(refs)/2)
-			}
 			return outs, refs
 		}}
 	return self
